@@ -13,6 +13,8 @@ Theorems (over Model/ListOffsets.lean and Model/Seek.lean):
   merge_throttle          the merged throttle is the maximum of the parts' throttles
   seek_correct            all four whence modes (+ SeekDontCheck): new offset = designated position, range-checked
                           against the partition's first/last offsets exactly when the mode demands it
+  seek_src_eq / seek_src_correct   the decision tree obtained by symbolic execution of conn.go Seek (Gen.Offsets.seekSrc) equals the
+                          model and meets the reference; the returned value is the new connection offset
   seek_no_change_on_error a failed Seek leaves the connection offset unchanged
   offset_roundtrip        Conn.Offset reports a position that Seek maps back to the same connection offset
   mapping_sources         regenerated field-copy tables of the mapping functions agree with the models' sources
@@ -250,6 +252,54 @@ theorem seek_correct (cur off w : Int) (dc : Bool) (offs : Offsets) :
       simp [seek, seekStart, seekAbsolute, seekEnd, seekCurrent, KV.Gen.Offsets.seekStart, KV.Gen.Offsets.seekAbsolute, KV.Gen.Offsets.seekEnd, KV.Gen.Offsets.seekCurrent, KV.Gen.Offsets.firstOffset, KV.Gen.Offsets.lastOffset, KV.Spec.Offsets.seekSpec, KV.Spec.Offsets.unchecked, seekTarget, rangeIf]
   · have hb : (w == 0 || w == 1 || w == 2 || w == 3) = false := by simp; omega
     simp [seek, seekStart, seekAbsolute, seekEnd, seekCurrent, KV.Gen.Offsets.seekStart, KV.Gen.Offsets.seekAbsolute, KV.Gen.Offsets.seekEnd, KV.Gen.Offsets.seekCurrent, KV.Gen.Offsets.firstOffset, KV.Gen.Offsets.lastOffset, KV.Spec.Offsets.seekSpec, hb]
+
+def liftOutcome : Outcome → KV.Gen.Offsets.SeekOut
+  | .ok n => .ok n n
+  | .badWhence => .badWhence
+  | .outOfRange => .outOfRange
+  | .readError => .readError
+
+set_option maxRecDepth 4000 in
+/-- the decision tree obtained by executing conn.go (*Conn).Seek symbolically equals the hand-written model on every
+input; in particular the value returned is always the connection's new offset -/
+theorem seek_src_eq (cur off w : Int) (dc : Bool) (offs : Offsets) :
+    KV.Gen.Offsets.seekSrc cur off w dc offs = liftOutcome (seek cur off w dc offs) := by
+  by_cases h0 : w = 0
+  · subst h0; cases dc <;> rcases offs with _ | ⟨f, l⟩ <;>
+      simp [KV.Gen.Offsets.seekSrc, seek, liftOutcome, KV.Seek.seekStart, KV.Seek.seekAbsolute, KV.Seek.seekEnd, KV.Seek.seekCurrent,
+        KV.Gen.Offsets.seekStart, KV.Gen.Offsets.seekAbsolute, KV.Gen.Offsets.seekEnd, KV.Gen.Offsets.seekCurrent] <;>
+      (repeat' split) <;> simp_all <;> omega
+  by_cases h1 : w = 1
+  · subst h1; by_cases hc : off = cur <;> cases dc <;> rcases offs with _ | ⟨f, l⟩ <;>
+      simp [KV.Gen.Offsets.seekSrc, seek, liftOutcome, hc, KV.Seek.seekStart, KV.Seek.seekAbsolute, KV.Seek.seekEnd, KV.Seek.seekCurrent,
+        KV.Gen.Offsets.seekStart, KV.Gen.Offsets.seekAbsolute, KV.Gen.Offsets.seekEnd, KV.Gen.Offsets.seekCurrent] <;>
+      (repeat' split) <;> simp_all <;> omega
+  by_cases h2 : w = 2
+  · subst h2; cases dc <;> rcases offs with _ | ⟨f, l⟩ <;>
+      simp [KV.Gen.Offsets.seekSrc, seek, liftOutcome, KV.Seek.seekStart, KV.Seek.seekAbsolute, KV.Seek.seekEnd, KV.Seek.seekCurrent,
+        KV.Gen.Offsets.seekStart, KV.Gen.Offsets.seekAbsolute, KV.Gen.Offsets.seekEnd, KV.Gen.Offsets.seekCurrent] <;>
+      (repeat' split) <;> simp_all <;> omega
+  by_cases h3 : w = 3
+  · subst h3; cases dc <;> rcases offs with _ | ⟨f, l⟩ <;>
+      simp [KV.Gen.Offsets.seekSrc, seek, liftOutcome, KV.Seek.seekStart, KV.Seek.seekAbsolute, KV.Seek.seekEnd, KV.Seek.seekCurrent,
+        KV.Gen.Offsets.seekStart, KV.Gen.Offsets.seekAbsolute, KV.Gen.Offsets.seekEnd, KV.Gen.Offsets.seekCurrent] <;>
+      (repeat' split) <;> simp_all <;> omega
+  · have hb : (w == 0 || w == 1 || w == 2 || w == 3) = false := by simp; omega
+    have hb' : ¬ (w = 0 ∨ w = 1 ∨ w = 2 ∨ w = 3) := by omega
+    simp [KV.Gen.Offsets.seekSrc, seek, liftOutcome, hb, hb', KV.Seek.seekStart, KV.Seek.seekAbsolute, KV.Seek.seekEnd, KV.Seek.seekCurrent,
+      KV.Gen.Offsets.seekStart, KV.Gen.Offsets.seekAbsolute, KV.Gen.Offsets.seekEnd, KV.Gen.Offsets.seekCurrent]
+
+/-- **seek_src_correct**: the regenerated decision tree of (*Conn).Seek meets the reference on every input, and the
+value it returns is the connection's new offset -/
+theorem seek_src_correct (cur off w : Int) (dc : Bool) (offs : Offsets) :
+    match KV.Gen.Offsets.seekSrc cur off w dc offs with
+    | .ok n r => r = n ∧ KV.Spec.Offsets.seekSpec cur off w dc offs = .ok n
+    | .badWhence => KV.Spec.Offsets.seekSpec cur off w dc offs = .badWhence
+    | .outOfRange => KV.Spec.Offsets.seekSpec cur off w dc offs = .outOfRange
+    | .readError => KV.Spec.Offsets.seekSpec cur off w dc offs = .readError := by
+  rw [seek_src_eq]
+  have h := seek_correct cur off w dc offs
+  cases hs : seek cur off w dc offs <;> simp_all [liftOutcome, Outcome.toSpec]
 
 example : seek 7 3 2 false (some (0, 100)) = .ok 97 := by decide
 example : seek 7 3 3 true none = .ok 10 := by decide
